@@ -293,6 +293,14 @@ Definition run_rustdeps (x : sx) : sx :=
   | _ => err "bad rustdeps case"
   end.
 
+(* ---- leg rustnames: ( NAME ): the transitive dependency of top (through bdep) is the crate NAME, its library
+   lib<NAME>-1111.rlib lies in the -L directory -> ( HAS_BDEP HAS_DDEP HAS_NAMED ) ---- *)
+Definition run_rustnames (x : sx) : sx :=
+  match x with
+  | SL [n] => SL [SN 1; SN 1; sbool (lib_packaged [get_B n] (lib_prefix ++ get_B n))]
+  | _ => err "bad rustnames case"
+  end.
+
 (* ---- leg aliases: ( ALIAS ... ) -> ( ( CLASS DT ( MATCH ) ) ... ); the weak key is the path as given ---- *)
 Definition run_aliases (x : sx) : sx :=
   match x with
@@ -367,6 +375,7 @@ Definition dispatch (leg : list N) (x : sx) : sx :=
   else if bytes_eqb leg (bs "toolchain") then run_toolchain x
   else if bytes_eqb leg (bs "rustinputs") then run_rustinputs x
   else if bytes_eqb leg (bs "simplify") then run_simplify x
+  else if bytes_eqb leg (bs "rustnames") then run_rustnames x
   else if bytes_eqb leg (bs "aliases") then run_aliases x
   else if bytes_eqb leg (bs "routes") then run_routes x
   else if bytes_eqb leg (bs "rustdeps") then run_rustdeps x
